@@ -27,7 +27,8 @@ Inductive sop :=
 | SDropFrom (i : N)        (* lose everything in flight that node i sent (i = 0: everything) *)
 | SAlias (i p : N)         (* node i sits behind a port-forwarding router with public address p *)
 | SMute (i : N) (on : bool)    (* from now on everything node i sends is lost (on) / gets through again (off) *)
-| SSetClaims (i : N) (cl : list (bytes * N)).   (* node i's own claims change at run time (re-configuration / restart with other claims) *)
+| SSetClaims (i : N) (cl : list (bytes * N))
+| SClose (i : N).          (* node i shuts down: the last thing it does is to broadcast CLOSE to its peers (end of GenericCloud::run) *)   (* node i's own claims change at run time (re-configuration / restart with other claims) *)
 
 Record sys := {
   s_nodes : list (N * node);
@@ -69,11 +70,12 @@ Definition add_writes (ws : list (N * list bytes)) (i : N) (l : list bytes) : li
   aset ws i (match aget ws i with Some old => old ++ l | None => l end).
 
 (* run one event on node i and record what it emitted *)
-Definition run_event (salts : list (N * N)) (s : sys) (i : N) (e : event) : sys * list (N * wire) :=
+(* apply a node function, put what it emits on the wire *)
+Definition run_fn (s : sys) (i : N) (f : node -> node * list effect) : sys * list (N * wire) :=
   match aget (s_nodes s) i with
   | None => (s, [])
   | Some n =>
-      let '(n', fx) := step salts (s_now s) n e in
+      let '(n', fx) := f n in
       let em := sort_by_dst (sends_of fx) in
       let base := length (s_sent s) in
       ({| s_nodes := aset (s_nodes s) i n'; s_now := s_now s;
@@ -85,6 +87,9 @@ Definition run_event (salts : list (N * N)) (s : sys) (i : N) (e : event) : sys 
                    | None => s_nat s
                    end; s_alias := s_alias s; s_muted := s_muted s |}, em)
   end.
+
+Definition run_event (salts : list (N * N)) (s : sys) (i : N) (e : event) : sys * list (N * wire) :=
+  run_fn s i (fun n => step salts (s_now s) n e).
 
 (* the node with other own claims; everything else, including connections, stays *)
 Definition with_claims (n : node) (cl : list (bytes * N)) : node :=
@@ -204,6 +209,7 @@ Definition sstep (salts : list (N * N)) (s : sys) (o : sop) : sys * sout :=
   | SNewNat i c =>
       ({| s_nodes := aset (s_nodes s) i (node_new c (s_now s)); s_now := s_now s; s_sent := s_sent s; s_queue := s_queue s;
           s_writes := s_writes s; s_nat := aset (s_nat s) i []; s_alias := s_alias s; s_muted := s_muted s |}, SONone)
+  | SClose i => let '(s', em) := run_fn s i (fun n => broadcast n MESSAGE_TYPE_CLOSE []) in (s', SOEmit em)
   | SSetClaims i cl =>
       match aget (s_nodes s) i with
       | None => (s, SOMissing)
